@@ -303,32 +303,52 @@ def run_plans(case):
     from rl_blox.algorithm.pets import evaluate_plans
 
     rng = np.random.default_rng(case["seed"])
-    S, P, Hn, A, O = [int(x) for x in (rng.integers(1, 5), rng.integers(1, 4),
+    S, P, Hn, A, O = [int(x) for x in (rng.integers(1, 5), rng.integers(1, 5),
                                        rng.integers(1, 5), rng.integers(1, 3),
                                        rng.integers(1, 4))]
+    if case["seed"] % 2:
+        P = max(P, 2)
     acts = rng.normal(size=(S, Hn, A)).astype(np.float32)
     traj = rng.normal(size=(S, P, Hn + 1, O)).astype(np.float32)
-
-    def reward_model(a, o):
-        return jnp.sum(a, axis=-1) * 2.0 + jnp.sum(o ** 2, axis=-1)
-
-    ok, v = guarded(res, "C17/raises/evaluate_plans", evaluate_plans,
-                    jnp.asarray(acts), jnp.asarray(traj), reward_model)
-    if not ok:
-        return res
     a64, t64 = acts.astype(np.float64), traj.astype(np.float64)
-    ref = np.zeros(S)
-    for s in range(S):
-        tot = 0.0
-        for p in range(P):
-            for t in range(Hn):
-                tot += a64[s, t].sum() * 2.0 + (t64[s, p, t] ** 2).sum()
-        ref[s] = tot / P
-    v = np.asarray(v, np.float64)
-    if v.shape != (S,) or not np.allclose(v, ref, rtol=1e-4, atol=1e-5):
-        res.violation("C17/evaluate_plans", "plan value != particle mean of summed "
-                      "rewards", {"got": v, "want": ref})
-    res.see("plan_value_checks")
+    # vectorised reward models: depending on action and observation, on the
+    # action only (control-effort penalty), on the observation only
+    for name, (wa, wo) in (("mixed", (2.0, 1.0)), ("action_only", (1.0, 0.0)),
+                           ("obs_only", (0.0, 1.0))):
+        def reward_model(a, o, wa=wa, wo=wo):
+            if wo == 0.0:
+                return -wa * jnp.sum(a ** 2, axis=-1)
+            if wa == 0.0:
+                return jnp.sum(o ** 2, axis=-1)
+            return jnp.sum(a, axis=-1) * wa + jnp.sum(o ** 2, axis=-1)
+
+        def reward_ref(a, o, wa=wa, wo=wo):
+            if wo == 0.0:
+                return -wa * (a ** 2).sum()
+            if wa == 0.0:
+                return (o ** 2).sum()
+            return a.sum() * wa + (o ** 2).sum()
+
+        ok, v = guarded(res, "C17/raises/evaluate_plans", evaluate_plans,
+                        jnp.asarray(acts), jnp.asarray(traj), reward_model)
+        if not ok:
+            return res
+        ref = np.zeros(S)
+        for s in range(S):
+            tot = 0.0
+            for p in range(P):
+                for t in range(Hn):
+                    tot += reward_ref(a64[s, t], t64[s, p, t])
+            ref[s] = tot / P
+        v = np.asarray(v, np.float64)
+        if v.shape != (S,) or not np.allclose(v, ref, rtol=1e-4, atol=1e-5):
+            res.violation("C17/evaluate_plans", f"plan value != particle mean of "
+                          f"summed rewards ({name} reward model, {P} particles)",
+                          {"got": v, "want": ref})
+            return res
+        res.see("plan_value_checks")
+        if P > 1:
+            res.see("plan_value_checks_several_particles")
     res.nontrivial = P > 1 and Hn > 1
     return res
 
